@@ -151,8 +151,11 @@ class CSSCharsetRule(cssrule.CSSRule):
             )
         else:
             try:
-                codecs.lookup(encoding)
+                info = codecs.lookup(encoding)
             except LookupError:
+                info = None
+            if info is None or not getattr(info, '_is_text_encoding', True):
+                # (codecs like rot13 or base64 are no text encodings)
                 self._log.error(
                     'CSSCharsetRule: Unknown (Python) encoding %r.' % encoding
                 )
